@@ -29,6 +29,9 @@ CLAIMS = {
     "C08": {"design_ref": "DESIGN.md 7/C08",
             "text": "Coq theorems for EVERY computer of the registry (reference, cached, SAM approximation with any repetition count): the result is a function of the known rows only (stale unknown rows irrelevant, any game class), recomputation idempotent, reveal+un-reveal undone exactly, histories ending in the same knowledge confluent, computed states fresh. Correspondence on histories + implementation-side oracles (route independence, idempotence, undo, stale rows) for every registered computer.",
             "technique": "Coq proof (fixpoint uniqueness) + history correspondence + route-independence oracle"},
+    "C17": {"design_ref": "DESIGN.md 7/C17",
+            "text": "Coq theorems over ALL histories of public operations (induction over the operation list): the table refines an abstract partial map coalition -> value (known iff set/revealed and not since unset/bulk-reset; known rows have lower = upper = value, Leibniz); bulk bound setters and every bound computer never alter a known row; unknown values are never returned (error / None / NaN); fresh object knows only the empty coalition; negation spec and involution. Correspondence: random histories incl. copy/negation aliasing, duplicates, malformed id lists; all getters compared after every operation; independent abstract-map oracle.",
+            "technique": "Coq refinement proof to an abstract map + operation-history correspondence"},
 }
 
 PENDING_REASON = "check under construction in this session (DESIGN.md section 9 staging); not claimed until its theorems and correspondence are committed"
